@@ -13,7 +13,7 @@ CLAIMED = {
                   "multiplicities for real sequences, and model fourier_agg = spatial_agg for D = 1 and every n; the Sobolev split and the H1 closed form (weights 1 + |2 pi k / L|^2); "
                   "Cauchy-Schwarz via the Lagrange identity, corr^2 = corr2, -1 <= corr <= 1, +-1 for proportional fields. The extracted metric model is compared in exact rationals with the "
                   "real functions (MSE/nMSE/sMSE, fourier_*, H1_*, correlation, mean_metric, scaling array, band mask).",
-             note="PARTIAL: Parseval for D >= 2 (needs the iterated D-dimensional DFT) and resolution independence are decided on the real code only (independent NumPy quadrature, closed-form "
+             note="PARTIAL: the full-spectrum Parseval identity is proved in every dimension (D-fold iterate of the 1-D transform); the folding onto the stored half spectrum for D >= 2 and resolution independence are decided on the real code only (independent NumPy quadrature, closed-form "
                   "trigonometric polynomials, map_between_resolutions). The absolute 1e-5 coefficient floor of fourier_aggregator is not modelled (statements are about spectra the floor leaves "
                   "untouched, as the property says); p = 1 metrics are witness-only; sqrt enters as an abstract root function.",
              technique="Rocq proof (field identities, lia on band arithmetic, 1-D DFT Parseval, Lagrange identity) + exact-rational correspondence + independent quadrature oracle", design="§4 C16"),
